@@ -70,7 +70,12 @@ def make_case(prop, seed, i, tier):
         t["auto"], t["need_facility"], t["component"] = True, False, None
     stage = STAGES[(i // 4 * 3 + i % 4) % len(STAGES)] if rng.random() < 0.8 else rng.choice(STAGES)
     from .p_c08 import gen_ops
-    return dict(prop=prop, i=i, kind="stage", spec=spec, stage=stage, k=rng.choice([0, 1, 2, 3, 5, 8]), subproject_task=sub,
+    enc = None
+    if rng.random() < 0.12:
+        # names in other scripts, and one of the encodings a user may pass to write/read_simple_json
+        G.non_ascii_names(rng, spec)
+        enc = rng.choice(["utf-8", "ascii", "latin-1", "cp932", "utf-16", "shift_jis"])
+    return dict(prop=prop, i=i, kind="stage", spec=spec, stage=stage, encoding=enc, k=rng.choice([0, 1, 2, 3, 5, 8]), subproject_task=sub,
                 edit=sorted(rng.sample(range(0, 12), rng.randint(1, 3))), hist=gen_ops(rng, n=rng.randint(2, 4)))
 
 
@@ -205,12 +210,24 @@ def check_references(res, q):
                                     "%s: attribute %s holds an object outside the restored project" % (label, k))
 
 
+_ENC = [None]      # encoding argument of the current case (None: the default)
+
+
+def _enc_kw():
+    return {} if _ENC[0] is None else {"encoding": _ENC[0]}
+
+
+def _load_json(path):
+    with open(path, "r", encoding=_ENC[0] or "utf-8") as fh:
+        return json.load(fh)
+
+
 def save(res, p, tag):
     path = scratch_file(tag)
     try:
         with warnings.catch_warnings():
             warnings.simplefilter("ignore")
-            p.write_simple_json(path)
+            p.write_simple_json(path, **_enc_kw())
     except Exception as e:
         ei = exc_info(e)
         if os.path.exists(path):
@@ -221,6 +238,9 @@ def save(res, p, tag):
 
 def run_stage(case, res):
     spec = case["spec"]
+    _ENC[0] = case.get("encoding")
+    if _ENC[0]:
+        res.count("C16.non_ascii_names_with_encoding." + _ENC[0])
     I.install()
     order = I.default_order(spec)
     I.set_order(order)
@@ -268,7 +288,7 @@ def run_stage(case, res):
         try:
             with warnings.catch_warnings():
                 warnings.simplefilter("ignore")
-                q.read_simple_json(path1)
+                q.read_simple_json(path1, **_enc_kw())
         except Exception as ex:
             e = exc_info(ex)
             res.violate("C16", "C16/read-raises:%s:%s" % (e["type"], e["where"]), "read_simple_json at stage %s raised %s: %s" % (st, e["type"], e["msg"]))
@@ -278,7 +298,7 @@ def run_stage(case, res):
         if e is not None:
             res.violate("C16", "C16/rewrite-raises:%s:%s" % (e["type"], e["where"]), "write_simple_json of the restored project raised %s: %s" % (e["type"], e["msg"]))
             return
-        j1, j2 = json.load(open(path1)), json.load(open(path2))
+        j1, j2 = _load_json(path1), _load_json(path2)
         res.count("C16.roundtrip_comparisons")
         d = json_diff(j1, j2)
         if d:
@@ -363,11 +383,11 @@ def later_reads_and_writes(case, res, h, p, q, path1, j1, st):
             for t in q.workflow.task_list:
                 t.state_record_list.append(ns.BaseTaskState.FINISHED)
             q3 = ns.BaseProject()
-            q3.read_simple_json(path1)
+            q3.read_simple_json(path1, **_enc_kw())
         path3, e = save(res, q3, "c")
         if e is None:
             try:
-                j3 = json.load(open(path3))
+                j3 = _load_json(path3)
             finally:
                 os.remove(path3)
             res.count("C16.second_reads_of_same_file")
@@ -402,7 +422,7 @@ def later_reads_and_writes(case, res, h, p, q, path1, j1, st):
         try:
             with warnings.catch_warnings():
                 warnings.simplefilter("ignore")
-                q4.read_simple_json(path4)
+                q4.read_simple_json(path4, **_enc_kw())
         except Exception as ex:
             e = exc_info(ex)
             res.violate("C16", "C16/read-raises:%s:%s:second-write" % (e["type"], e["where"]), "read of the second file raised %s: %s" % (e["type"], e["msg"]))
@@ -557,6 +577,7 @@ def run_param(case, res):
 
 def run_case(case):
     res = Result(case)
+    _ENC[0] = None
     res["source"] = case["kind"]
     if case["kind"] == "param":
         run_param(case, res)
